@@ -270,7 +270,7 @@ int lltd_port_get_mtu(void *ctx, size_t *out) {
     vf_iface *f = IF(ctx);
     if (!f || !out) return -1;
     if (fp_point(VF_F_MTU) || (f->fail & VF_G_MTU)) return -1;
-    TS_RANGE(out, sizeof *out, 1); *out = f->mtu; return 0;
+    TS_RANGE(out, sizeof *out, 1); *out = W.env.mtu_alt ? (f->mtu == 1500 ? 9216 : 1500) : f->mtu; return 0;
 }
 int lltd_port_get_icon_image(void **out_data, size_t *out_size) {
     if (out_data) *out_data = NULL;
